@@ -1460,23 +1460,22 @@ func (e *Exec) convertFn(from, to types.Type, st string) func(Value) Value {
 				return BV(tw, uint64(f.c))
 			}
 			t, nb := fToInt(f)
-			lim := tw - 1
-			if !signed {
-				lim = tw
+			// Out-of-range conversions are implementation-defined in Go; the amd64 behaviour is modelled
+			// (CVTTSD2SL/CVTTSD2SQ return the "integer indefinite" value 0x80..0), narrower targets
+			// are converted through int32 (int8/16/32, uint8/16) or int64 (uint32, int64) and truncated.
+			via := 32
+			if tw == 64 || (tw == 32 && !signed) {
+				via = 64
 			}
-			if nb > lim {
-				// may be out of range: implementation-defined result; demand in-range as an obligation
-				lo := BV(64, uint64(-(int64(1) << uint(tw-1))))
-				hi := BV(64, uint64(int64(1)<<uint(tw-1)-1))
-				if !signed {
-					lo = BV(64, 0)
-					if tw < 64 {
-						hi = BV(64, uint64(1)<<uint(tw)-1)
-					} else {
-						hi = BV(64, math.MaxInt64)
-					}
-				}
-				e.obligation(And(Cmp(OpSLe, lo, t), Cmp(OpSLe, t, hi)), "runtime", "float-to-integer conversion out of range (implementation-defined result)", st)
+			if via == 32 && nb > 31 {
+				lo := BV(64, uint64(0xFFFFFFFF80000000))
+				hi := BV(64, 0x7FFFFFFF)
+				in := And(Cmp(OpSLe, lo, t), Cmp(OpSLe, t, hi))
+				t = Ite(in, t, BV(64, uint64(0xFFFFFFFF80000000)))
+				e.Stubs["float-to-integer conversion out of range modelled as on amd64 (integer indefinite value)"] = true
+			}
+			if tw == 64 && !signed && nb > 62 {
+				unsup("float to uint64 conversion of unbounded value at %s", st)
 			}
 			return Trunc(t, tw)
 		}
